@@ -52,7 +52,10 @@ static std::vector<cell_ptr> make_tissue(const tissue_case& t, const std::vector
                 for (const edge& e0 : es){
                     if (k++ < skip) continue;
                     edge e = e0;
-                    if (e.is_manifold() && lmr.can_be_merged(e, c)){ edge_set work = es; lmr.merge_edge(e, c, work); done++; found = true; break; }
+                    if (e.is_manifold() && lmr.can_be_merged(e, c)){
+                        edge_set work = es;
+                        try { lmr.merge_edge(e, c, work); } catch (const std::exception& ex){ throw std::runtime_error(std::string("PREMERGE ") + ex.what()); }     // the preparation failed, not the phase
+                        done++; found = true; break; }
                 }
                 if (!found && skip == 0) break;
             }
